@@ -340,7 +340,8 @@ func (jf *JSONFamily) unMembers(e *FuncEnc, jt *jsonType, c string, has0, val0 s
 func (e *FuncEnc) namesProperty(err, name string) string {
 	e.D.UF("errfmt", []string{"Iface"}, "Str")
 	var alts []string
-	for f, sym := range e.ErrFormats {
+	for _, f := range sortedKeys(e.ErrFormats) {
+		sym := e.ErrFormats[f]
 		if strings.Contains(f, "'"+name+"'") {
 			alts = append(alts, eq(sx("errfmt", err), sym))
 		}
@@ -492,7 +493,8 @@ func (jf *JSONFamily) receiverFrame(e *FuncEnc, c string, T types.Type, pre, pos
 		// carried around an enclosing loop (objects made in earlier iterations bear later static times)
 		existed := []string{fmt.Sprintf("(<= (atime a) (+ T0 %d))", e.allocIdx)}
 		if e.curBlock != nil {
-			for h, li := range e.loops {
+			for _, li := range e.loopList() {
+				h := li.header
 				if !li.body[e.curBlock] {
 					continue
 				}
